@@ -79,6 +79,8 @@ def cases(ctx: Ctx):
         net.remove_reaction([i for i, r_ in enumerate(net.reaction_list) if any(s_.is_grain for s_ in r_.reactants + r_.products)])
     el = [rec(["H+", "e-"], ["H"], 100), rec(["H", "CR"], ["H+", "e-"], 101, idx=2), rec(["H", "H"], ["H2"], 100, idx=3)]
     (d / "el.naunet").write_text("\n".join(encoders.native(x) for x in el) + "\n")
+    el2 = [rec(["C+", "E-"], ["C"], 100, idx=4), rec(["C", "CR"], ["C+", "E-"], 101, idx=5)]
+    (d / "el2.naunet").write_text("\n".join(encoders.native(x) for x in el2) + "\n")
     out = [
         # cooling with each cvode method (the temperature row of Fex and of both Jacobians uses kc / kh)
         ("krome+cooling, cvode sparse", dict(filelist=str(data / "primordial.krome"), fileformats="krome", cooling=["CIC_HI", "RC_HII"]), "cvode", "sparse"),
@@ -92,6 +94,13 @@ def cases(ctx: Ctx):
         ("uclchem+hh93", dict(filelist=str(d / "gas_hh93.ucl"), fileformats="uclchem", grain_model="hh93"), "cvode", "dense"),
         ("uclchem+hh93i", dict(filelist=str(d / "gas_hh93.ucl"), fileformats="uclchem", grain_model="hh93i"), "cvode", "sparse"),
         ("native grain charging+hh93", dict(filelist=[str(d / "n.naunet"), str(d / "charge.naunet")], fileformats="naunet", grain_model="hh93"), "odeint", "rosenbrock4"),
+        # one species spelled two ways by two files (e- in one, E- in the other): one index macro, used everywhere
+        ("native e- + native E-", dict(filelist=[str(d / "el.naunet"), str(d / "el2.naunet")], fileformats="naunet"), "cvode", "sparse"),
+        ("native E- + native e-", dict(filelist=[str(d / "el2.naunet"), str(d / "el.naunet")], fileformats="naunet"), "odeint", "rosenbrock4"),
+        # every pairing of the CO and N2 shielding tables
+        ("leeds, CO VB88 + N2 L13 tables", dict(filelist=str(data / "rate12_HO.leeds"), fileformats="leeds", grain_model="hh93",
+                                                shielding={"H2": "L96Table", "CO": "VB88Table", "N2": "L13Table"}), "cvode", "dense"),
+        ("leeds, N2 L13 table only", dict(filelist=str(data / "rate12_HO.leeds"), fileformats="leeds", grain_model="hh93", shielding={"N2": "L13Table"}), "cvode", "sparse"),
         ("uclchem + native grain charging, rr07x", dict(filelist=[str(d / "gas.ucl"), str(d / "charge.naunet")], fileformats=["uclchem", "naunet"], grain_model="rr07x"),
          "cvode", "dense"),
         ("uclchem + native grain charging, rr07", dict(filelist=[str(d / "gas_nothermal.ucl"), str(d / "charge.naunet")], fileformats=["uclchem", "naunet"],
